@@ -145,7 +145,9 @@ pub struct ObjSt {
 pub struct GateSt {
     pub open: bool,
     pub opened_at: u64,
-    pub wakers: Vec<Waker>,
+    /// (await instance, waker)
+    pub wakers: Vec<(usize, Waker)>,
+    pub next_key: usize,
     /// every waker ever registered (stale ones included): `rewake` fires them again, as the Waker contract allows
     pub history: Vec<Waker>,
 }
@@ -636,7 +638,7 @@ impl World {
     /// Drops the wakers the shadow state holds (root teardown, inside the execution)
     pub fn clear_wakers(&self) {
         let (a, b, c): (Vec<Vec<Waker>>, Vec<Vec<Waker>>, Vec<Option<Waker>>) = self.with(|i| {
-            (i.gates.iter_mut().map(|g| std::mem::take(&mut g.wakers)).collect(), i.gates.iter_mut().map(|g| std::mem::take(&mut g.history)).collect(), i.streams.iter_mut().map(|s| s.waker.take()).collect())
+            (i.gates.iter_mut().map(|g| std::mem::take(&mut g.wakers).into_iter().map(|(_, w)| w).collect()).collect(), i.gates.iter_mut().map(|g| std::mem::take(&mut g.history)).collect(), i.streams.iter_mut().map(|s| s.waker.take()).collect())
         });
         drop(a);
         drop(b);
@@ -671,7 +673,7 @@ impl World {
                 i.stats.racy_wakes += 1;
             }
             let gs = &mut i.gates[g];
-            (std::mem::take(&mut gs.wakers), false)
+            (std::mem::take(&mut gs.wakers).into_iter().map(|(_, w)| w).collect::<Vec<Waker>>(), false)
         });
         let double = double || self.case.cfg.double_wake;
         self.hist(|| format!("open gate g{} ({} wakers)", g, wakers.len()));
